@@ -20,7 +20,7 @@ func (c *Ctx) unionFunc() (*ssa.Function, string) {
 }
 
 func ruleC06UnionFields(c *Ctx) {
-	c.Doc("c06.fields-consumed", "the union builder reads every field of *sqlparser.Union that carries meaning for the property: Left, Right, Distinct (UNION vs UNION ALL), Limit and With")
+	c.Doc("c06.fields-consumed", "the union builder reads every field of *sqlparser.Union that carries meaning for the property: Left, Right, Distinct (UNION vs UNION ALL), Limit, OrderBy and With")
 	c.NotDecidedClause("C06: whether two different rows can share a %v fingerprint (value-level); multiset equalities on concrete tables")
 	f, ep := c.unionFunc()
 	if f == nil {
@@ -36,14 +36,18 @@ func ruleC06UnionFields(c *Ctx) {
 						if u, ok := r.(*ssa.UnOp); ok && u.X == ssa.Value(fa) {
 							read[fieldName(fa.X.Type(), fa.Field)] = true
 						}
+						// the field's address handed to a builder (BuildOrder(query, &expr.OrderBy))
+						if _, ok := r.(ssa.CallInstruction); ok {
+							read[fieldName(fa.X.Type(), fa.Field)] = true
+						}
 					}
 				}
 			}
 		})
 	}
 	_ = ep
-	for _, fld := range []string{"Left", "Right", "Distinct", "Limit", "With"} {
-		c.Check(read[fld], "c06.fields-consumed", c.P.funcKey(f)+"/"+fld, c.P.Pos(f.Pos()), "field is read on the build path", "Union."+fld+" is never read by the union builder"+map[string]string{"Distinct": ": UNION and UNION ALL cannot differ", "Limit": ": a LIMIT on the union is ignored"}[fld])
+	for _, fld := range []string{"Left", "Right", "Distinct", "Limit", "With", "OrderBy"} {
+		c.Check(read[fld], "c06.fields-consumed", c.P.funcKey(f)+"/"+fld, c.P.Pos(f.Pos()), "field is read on the build path", "Union."+fld+" is never read by the union builder"+map[string]string{"Distinct": ": UNION and UNION ALL cannot differ", "Limit": ": a LIMIT on the union is ignored", "OrderBy": ": an ORDER BY on the union is silently dropped (and its LIMIT cuts from the unsorted rows)"}[fld])
 	}
 }
 
@@ -108,6 +112,15 @@ func ruleC06UnionWiring(c *Ctx) {
 		}
 		if !sawLimit {
 			why = append(why, "BuildLimit(query, expr.Limit) is not called on the success path")
+		}
+		sawOrder := false
+		for _, e := range p.Effects {
+			if e.Kind == "call" && strings.HasSuffix(e.Callee, "BuildOrder") && len(e.Args) == 2 && strings.Contains(e.Args[1].String(), ".OrderBy") && strings.Contains(e.Args[1].String(), "p:"+ep) {
+				sawOrder = true
+			}
+		}
+		if !sawOrder {
+			why = append(why, "BuildOrder(query, &expr.OrderBy) is not called on the success path: the union's ORDER BY is dropped")
 		}
 		if distinctVal == nil || !(distinctVal.Op == "field" && distinctVal.Name == "Distinct" && distinctVal.Args[0].Op == "param" && distinctVal.Args[0].Name == ep) {
 			why = append(why, "query.distinct is not set from expr.Distinct (found "+termStr(distinctVal)+")")
@@ -477,6 +490,24 @@ func ruleC06DistinctLoop(c *Ctx) {
 				a, ok := callArgs(x, "fmt.Sprintf")
 				return ok && len(a) == 2 && a[1].Op == "varargs" && len(a[1].Args) == 1 && elemOfLoop(a[1].Args[0], lp) && a[1].Args[0].Op != "lookup" && a[1].Args[0].Op != "field"
 			})
+		}
+		// the rendering that is fingerprinted must be injective on JSON-like rows: the Go-syntax verb quotes strings,
+		// names nil and brackets composites; %v / %s / %+v render `a:"1 b:2"` and `a:1 b:2` alike
+		checkFmt := func(t *Term) {
+			t.Walk(func(x *Term) bool {
+				if a, ok := callArgs(x, "fmt.Sprintf"); ok && len(a) == 2 && a[0].Op == "const" {
+					if a[0].Name != `"%#v"` {
+						why = append(why, "the row is fingerprinted through the format "+a[0].Name+", which is not injective (unquoted strings, <nil>, blank separators): rows that differ can be dropped as duplicates")
+					}
+				}
+				return true
+			})
+		}
+		checkFmt(seenKey)
+		for _, e := range p.Effects {
+			if (e.Kind == "call" || e.Kind == "store") && len(e.Args) > 0 {
+				checkFmt(e.Args[len(e.Args)-1])
+			}
 		}
 		fpOK := wholeRow(seenKey)
 		if !fpOK {
